@@ -140,25 +140,46 @@ Theorem C15_cache_error_outcome_eq_upstream : forall tracked plsup ippvs plr ipp
 Proof. exact cache_error_outcome_eq_upstream. Qed.
 Print Assumptions C15_cache_error_outcome_eq_upstream.
 
-(* EVENT LEVEL (round 8): a pod delivered through the cache's handlers as
-   AddPod(v0), UpdatePod(v0,v1), UpdatePod(v1,v2), ... - status-only, spec-only or
-   mixed changes, any number of them.  In the model of the handlers (addPod builds
-   a new TaskInfo from the event's pod object; updatePod = RemoveTask of the stored
-   request + addPod) the cached task's request after EVERY event is upstream's
-   request of the pod object of that event (+ pods + volumes), and the node's
-   Used carries exactly the same amounts; by induction over the event history
-   with the invariant "Used has the amounts of the cached task".  The model is
-   tied to SchedulerCache.AddPod / UpdatePod by correspondence selector 3 and
-   law 107; for bound, non-terminated pods on a known node with one pod on it. *)
-Theorem C15_event_history_eq_upstream : forall tracked plsup ippvs plr ippl dra (vs : list (list positive * pod_meta * pod)),
+(* EVENT LEVEL.  A pod delivered through the cache's handlers as AddPod(v0),
+   UpdatePod(v0,v1), ... - status-only, spec-only or mixed changes.  The model
+   (ev_hist) has the structure of updatePod: an early-return branch that KEEPS the
+   stored task and Used (taken by the code when the new object has no nodeName
+   while the stored task is allocated: code_keeps), otherwise RemoveTask of the
+   STORED request followed by addPod of a TaskInfo computed from the new object.
+   INDEPENDENT SPECIFICATION: the state after event i is a function of version i
+   alone - the cached task is upstream's request of version i (+ pods + volumes)
+   and the node's Used carries the same amounts - for every history of bound
+   pod_ok versions; by induction over the history with the invariant "Used has the
+   amounts of the stored task".  That the REAL updatePod takes no other early
+   return is not proved: it is what correspondence selector 3 + law 107 check. *)
+Theorem C15_event_history_spec : forall tracked plsup ippvs plr ippl dra (vs : list (list positive * pod_meta * pod)),
   Forall (fun x => pod_ok tracked plsup x.2) vs ->
+  Forall (fun x => m_node x.1.2 = true) vs ->
   Forall2 (fun st x =>
              let want := cache_add_csi
                (add_scalar (new_resource tracked (k8s_pod_requests plsup (opts_of ippvs plr ippl dra) x.2)) pods_name 1) x.1.1 in
              st_task st = want /\ same_amounts (st_used st) want)
-          (ev_trace (map (fun x => cache_task_resreq tracked plsup ippvs plr ippl dra x.1.1 x.1.2 x.2) vs)) vs.
-Proof. exact event_history_eq_upstream. Qed.
-Print Assumptions C15_event_history_eq_upstream.
+          (ev_hist code_keeps (fun x => cache_task_resreq tracked plsup ippvs plr ippl dra x.1.1 x.1.2 x.2) vs) vs.
+Proof. exact event_history_spec. Qed.
+Print Assumptions C15_event_history_spec.
+
+(* the specification is not satisfied by construction: the early-return variant
+   of seed C15-r8-1 (keep the stored task when a Running pod's update leaves the
+   spec unchanged), as a model, violates it on the admitted-resize history
+   (cached task 1000m, 1000m; specification and the code's guard 1000m, 6000m) *)
+Theorem C15_early_return_variant_refuted :
+  Forall (fun x => pod_ok all_tracked huge_only x.2) resize_history /\
+  Forall (fun x => m_node x.1.2 = true) resize_history /\
+  map (fun st => cpu (st_task st))
+      (ev_hist r81_keeps (fun x => cache_task_resreq all_tracked huge_only true true true false x.1.1 x.1.2 x.2) resize_history)
+    = [1000; 1000] /\
+  map (fun st => cpu (st_task st))
+      (ev_hist code_keeps (fun x => cache_task_resreq all_tracked huge_only true true true false x.1.1 x.1.2 x.2) resize_history)
+    = [1000; 6000] /\
+  map (fun x => cpu (new_resource all_tracked (k8s_pod_requests huge_only (opts_of true true true false) x.2))) resize_history
+    = [1000; 6000].
+Proof. exact early_return_variant_refuted. Qed.
+Print Assumptions C15_early_return_variant_refuted.
 
 (* the invariant step lemmas behind it, for arbitrary request vectors *)
 Theorem C15_ev_trace_spec : forall reqs,
